@@ -53,6 +53,16 @@ def check(ctx):
                 tx.append(texts.mutate_text(ctx.rng, t))
         for _ in range(9000 if ctx.thorough else 600):
             tx.append(texts.unicode_garbage(ctx.rng, 60))
+        # well-formed texts that stress the phases after parsing: cyclic declaration graphs (functions, contents, aliases,
+        # schemas; recursion check and evaluation) and applications with an argument too few or too many (inference)
+        from . import cyc, c01
+        for _ in range(1500 if ctx.thorough else 250):
+            p = cyc.gen_cyclic(ctx.rng)[0]
+            tx.append(p["mods"][p["main"]])
+        tx += list(cyc.CORPUS) + list(c01.ARITY)
+        tx += ["let a = { 'p (f a) };\nlet f x = g x;\nlet g x = f x | a;\nres / on get -> a;\n",
+               "let f x = f x;\nlet a = { 'x a };\nres / on get -> <f a>;\n",
+               "let a = { 'x a };\nlet f x = f x;\nres / on get -> <f a>;\n"]
         for op, cl, corev in texts.NESTINGS:
             for d in (50, 200):
                 tx.append(texts.nested(d, op, cl, corev) + "res / on get -> <a>;\n")
